@@ -182,7 +182,7 @@ def _sized(call, seed):
 
 def sign(l, items, ctype, content, seed, crls=None):
     arr, keep = signers_array(items)
-    cb = Buf.of(content)
+    cb = _cbuf(content)
     rb, rl = _opt(crls)
     return _sized(lambda o, n: l.cms_sign(o, n, arr, len(items), ctype, cb, len(content), rb, rl), seed)
 
@@ -201,8 +201,16 @@ def _opt(b):
     return (Buf.of(b), len(b)) if b is not None else (None, 0)
 
 
+# an empty content can be handed over as (valid pointer, 0) or as (NULL, 0); the checks set this per case
+EMPTY_AS_NULL = False
+
+
+def _cbuf(content):
+    return None if (not content and EMPTY_AS_NULL) else Buf.of(content)
+
+
 def envelop(l, certs, key, iv, ctype, content, s1, s2, seed):
-    cb, kb, ib, tb = Buf.of(b"".join(certs)), Buf.of(key), Buf.of(iv), Buf.of(content)
+    cb, kb, ib, tb = Buf.of(b"".join(certs)), Buf.of(key), Buf.of(iv), _cbuf(content)
     (s1b, s1l), (s2b, s2l) = _opt(s1), _opt(s2)
     alg = const("OID_sm4_cbc")
     return _sized(lambda o, n: l.cms_envelop(o, n, cb, cb.n, alg, kb, len(key), ib, len(iv), ctype, tb, len(content), s1b, s1l, s2b, s2l), seed)
@@ -221,7 +229,7 @@ def deenvelop(l, cms, keyobj, cert):
 
 
 def encrypt(l, key, iv, ctype, content, s1, s2):
-    kb, ib, tb = Buf.of(key), Buf.of(iv), Buf.of(content)
+    kb, ib, tb = Buf.of(key), Buf.of(iv), _cbuf(content)
     (s1b, s1l), (s2b, s2l) = _opt(s1), _opt(s2)
     alg = const("OID_sm4_cbc")
     return _sized(lambda o, n: l.cms_encrypt(o, n, alg, kb, len(key), ib, len(iv), ctype, tb, len(content), s1b, s1l, s2b, s2l), 1)
@@ -241,7 +249,7 @@ def decrypt(l, cms, key):
 
 def sign_and_envelop(l, items, certs, key, iv, ctype, content, s1, s2, seed, crls=None):
     arr, keep = signers_array(items)
-    cb, kb, ib, tb = Buf.of(b"".join(certs)), Buf.of(key), Buf.of(iv), Buf.of(content)
+    cb, kb, ib, tb = Buf.of(b"".join(certs)), Buf.of(key), Buf.of(iv), _cbuf(content)
     (s1b, s1l), (s2b, s2l), (rb, rl) = _opt(s1), _opt(s2), _opt(crls)
     alg = const("OID_sm4_cbc")
     return _sized(lambda o, n: l.cms_sign_and_envelop(o, n, arr, len(items), cb, cb.n, alg, kb, len(key), ib, len(iv), ctype, tb, len(content), rb, rl,
